@@ -45,7 +45,13 @@ def main():
     os.makedirs(out, exist_ok=True)
     patch = os.path.join(src, "patch.diff")
     meta = json.load(open(os.path.join(src, "meta.json"))) if os.path.exists(os.path.join(src, "meta.json")) else {}
+    if "agent_meta" in meta:  # re-run on an already recorded seed: keep the original description
+        meta = meta["agent_meta"]
     res = {"property": pid, "seed_id": seed_id, "agent_meta": meta, "confirmed": {}, "checks": {}}
+    try:  # keep the outcomes of checks that are not re-run now
+        res["checks"] = dict(json.load(open(os.path.join(out, "meta.json"))).get("checks", {}))
+    except Exception:
+        pass
     wt = tempfile.mkdtemp(prefix="seedcheck-", dir="/tmp")
     os.rmdir(wt)
     rc, o = sh(["git", "-C", REPO, "worktree", "add", "--detach", wt, "HEAD"])
@@ -76,7 +82,7 @@ def main():
         copied = []
         for dp, _, fns in os.walk(demo):
             for fn in fns:
-                if fn == "RUN.txt":
+                if fn == "RUN.txt" or not fn.endswith(".go"):
                     continue
                 # place test files where RUN.txt / meta says; default: find a matching path hint in the file header
                 srcf = os.path.join(dp, fn)
@@ -110,6 +116,8 @@ def main():
                 break
         cmd = cmd.replace("/tmp/seed/%s" % pid, wt)
         if cmd:
+            # the demo's own overlay only supplies the embedded UI placeholder: use ours
+            cmd = re.sub(r"-overlay\s+\S+", "-overlay %s" % ov, cmd)
             if "-overlay" not in cmd and ("go test" in cmd or "go run" in cmd):
                 cmd = cmd.replace("go test", "go test -overlay %s" % ov).replace("go run", "go run -overlay %s" % ov)
             rc1, o1 = sh(cmd, cwd=wt, env=goenv(), timeout=1800)
@@ -155,8 +163,10 @@ def main():
 
 
 def finish(res, out, src):
-    shutil.copy(os.path.join(src, "patch.diff"), os.path.join(out, "patch.diff"))
-    if os.path.isdir(os.path.join(src, "demo")):
+    same = os.path.realpath(src) == os.path.realpath(out)
+    if not same:
+        shutil.copy(os.path.join(src, "patch.diff"), os.path.join(out, "patch.diff"))
+    if not same and os.path.isdir(os.path.join(src, "demo")):
         shutil.rmtree(os.path.join(out, "demo"), ignore_errors=True)
         shutil.copytree(os.path.join(src, "demo"), os.path.join(out, "demo"))
     json.dump(res, open(os.path.join(out, "meta.json"), "w"), indent=1)
